@@ -65,10 +65,13 @@ def make_world(rng, ns, nvar, pre="none", paired=0.0, sets=None, indels=0.0, dec
     gap = 70
     ref = world.random_reference(rng, gap * nvar + 140)
     vpos = [60 + gap * i for i in range(nvar)]
+    at_zero = rng.random() < 0.2
+    if at_zero:
+        vpos[0] = 0              # the first variant sits on the FIRST base of the contig (POS 1; phase-set id 0 internally)
     variants = []
     for p in vpos:
         kind = "snv"
-        if rng.random() < indels:
+        if rng.random() < indels and not (at_zero and p == 0):
             kind = rng.choice(["ins", "del"])
         if kind == "del":
             ln = next((n for n in (rng.choice([1, 2, 3]), 1) if world.deletion_unshiftable(ref, p, n)), None)
